@@ -27,7 +27,10 @@ def live(seed, k, tier):
     zrun = (pip + 5, pip + 6, pip + 7)
     while h <= pip + 10:
         # a zero rate (OPR outside the 25% band of the SPR) for pDCR / pXBT at one height after 2.0.2
-        if h == zero_dcr_at or h in zrun:
+        if k % 2 == 1 and h == pip + 8:
+            pass        # an unrated height right after the zero run: the window is reloaded by height and is SHORTER than the period,
+                        # missing heights and zero rates together still leave fewer than half usable values
+        elif h == zero_dcr_at or h in zrun:
             s.grade(h, rates={"pXBT": scen.RATES["pXBT"] * 2}, spr_rates={"pXBT": scen.RATES["pXBT"]})
         else:
             s.grade(h)
